@@ -299,6 +299,11 @@ func (e *LinEval) of(v ssa.Value) Lin {
 		// opaque but canonical for / and %
 		if x.Op == token.QUO || x.Op == token.REM {
 			a, b := e.Of(x.X), e.Of(x.Y)
+			// a % k is a - k·(a/k) (Go truncated division): one normal form for both spellings
+			if k, isC := b.IsConst(); x.Op == token.REM && a.OK && b.OK && isC && k != 0 {
+				q := LinAtom("(" + a.String() + ")/(" + b.String() + ")")
+				return a.Sub(q.Scale(k))
+			}
 			if a.OK && b.OK {
 				return LinAtom("(" + a.String() + ")" + x.Op.String() + "(" + b.String() + ")")
 			}
